@@ -77,9 +77,12 @@ Inductive case :=
   | COpaque (z : series) (zt zi : iseries)
   (* metamorphic pair of implementation outputs: o1 on the original index, o2 with every input
      index shifted by k; lagged = output indexed by lag (ACF/PACF), not by time *)
-  | CShift (k : Z) (lagged : bool) (o1 o2 : iseries).
+  | CShift (k : Z) (lagged : bool) (o1 o2 : iseries)
+  (* a call history: one case per transform + inverse_transform probe (each with the quantities of
+     the fitted object AT THAT POINT of the history), all of which must agree *)
+  | CSeq (c1 c2 : case).
 
-Definition check (c : case) : bool :=
+Fixpoint check (c : case) : bool :=
   match c with
   | CDes d0 cond ups z zt zi =>
       let d1 := match cond with
@@ -109,6 +112,7 @@ Definition check (c : case) : bool :=
   | CShift k lagged o1 o2 =>
       zlist_eqb (map (fun t => if lagged then t else t + k) (fst o1)) (fst o2) &&
       ovals_close (snd o1) (snd o2)
+  | CSeq c1 c2 => check c1 && check c2
   end.
 
 Fixpoint mism (cs : list (Z * case)) : list Z :=
